@@ -210,7 +210,11 @@ func c09Families() []string {
 		for _, x := range c09Tokens {
 			out = append(out, b+" "+x, x+" "+b)
 		}
-		out = append(out, b+` "unterminated`, b+` "`, b+` ""`, b+" ;", b+" é")
+		out = append(out, b+` "unterminated`, b+` "`, b+` ""`, b+" ;", b+" é", b+" !", b+" \xff", b+` "c`)
+	}
+	// strings whose last quote is part of an escaped pair: they are unterminated
+	for _, v := range []string{`"abc""`, `"""`, `""x""`, `"a""b""`, `"""""`, `" ""`} {
+		out = append(out, "a = "+v, "a = "+v+" ; a", `a = "x" & b = `+v)
 	}
 	return out
 }
@@ -334,9 +338,9 @@ func c09Run(ctx *rt.Ctx) []*rt.Violation {
 			jobs = append(jobs, rt.Job{Name: space, Shard: s, NShards: shards, Args: b})
 		}
 	}
-	tl, bl := 5, 4
+	tl, bl := 5, 5
 	if ctx.Thorough() {
-		tl, bl = 7, 5
+		tl, bl = 7, 6
 	}
 	add("families", 0, 1)
 	if ctx.Thorough() {
@@ -358,6 +362,9 @@ func c09Run(ctx *rt.Ctx) []*rt.Violation {
 		sh := 1
 		if l >= 4 {
 			sh = 16
+		}
+		if l >= 6 {
+			sh = 64
 		}
 		add("bytes", l, sh)
 	}
